@@ -2325,8 +2325,10 @@ def _attrs_to_init_script(
 
         lines.append(f"BaseException.__init__(self, {vals})")
 
+    # We need to remove the defaults from the args: pre-init gets the values
+    # that have been passed to us.
+    pre_init_args = ", ".join(arg.split("=")[0] for arg in args)
     args = ", ".join(args)
-    pre_init_args = args
     if kw_only_args:
         # leading comma & kw_only args
         args += f"{', ' if args else ''}*, {', '.join(kw_only_args)}"
